@@ -3,7 +3,7 @@
 # property text in PROPERTY.md and an empty out/ directory. Nothing from /verif is copied.
 set -eu
 id="$1"
-d=/tmp/seed-$id
+d=/tmp/${SEED_PREFIX:-seed}-$id
 git -C /repo worktree remove --force "$d" 2>/dev/null || true
 rm -rf "$d"
 git -C /repo worktree add --detach "$d" HEAD >/dev/null 2>&1
